@@ -72,6 +72,9 @@ inductive Err
   | tooMany (expected got : Nat)
   | duplicate (expected got : Nat)
   | missing (expected got : Nat)
+  | testNumberTooLarge
+  | planCountTooLarge
+  | versionTooLarge
   deriving DecidableEq, Repr
 
 inductive Event
@@ -254,11 +257,24 @@ structure PState where
 
 def PState.init : PState := {}
 
-/-- `self.last_test + 1 if m.group(2) is None else int(m.group(2))` -/
+/-- CPython's default `sys.get_int_max_str_digits()` -/
+def intMaxStrDigits : Nat := 4300
+
+/-- `int(ds)` raises ValueError for a digit string `ds` (leading zeros count) -/
+def tooLong (ds : List Char) : Bool := decide (ds.length > intMaxStrDigits)
+
+/-- the test number was given and `int()` refused it (the `except ValueError` branch) -/
+def numTooLong (num : Option (List Char)) : Bool :=
+  match num with
+  | none => false
+  | some d => tooLong d
+
+/-- `self.last_test + 1 if m.group(2) is None else int(m.group(2))`, and `self.last_test + 1` again when
+`int()` raised -/
 def testNumber (s : PState) (num : Option (List Char)) : Nat :=
   match num with
   | none => s.lastTest + 1
-  | some d => natOfDigits d
+  | some d => if tooLong d then s.lastTest + 1 else natOfDigits d
 
 /-- `self.plan and self.plan.late and not self.found_late_test` -/
 def lateNow (s : PState) : Bool :=
@@ -278,7 +294,9 @@ def onTest (s : PState) (ok : Bool) (num : Option (List Char)) (name : List Char
   let n := testNumber s num
   ({ s with foundLateTest := s.foundLateTest || lateNow s, numTests := s.numTests + 1, lastTest := n,
             highestTest := max s.highestTest n, state := .afterTest },
-   (if lateNow s then [.error .lateTest] else []) ++ (if exceedsPlan s n then [.error .exceedsPlan] else []) ++
+   (if lateNow s then [.error .lateTest] else []) ++
+   (if numTooLong num then [.error .testNumberTooLarge] else []) ++
+   (if exceedsPlan s n then [.error .exceedsPlan] else []) ++
      parseTest ok n name dir expl)
 
 /-- `m.group(2)` under `if m.group(2):` — None and the empty string are falsy -/
@@ -305,6 +323,7 @@ def onPlan (s : PState) (ds : List Char) (dir expl : Option (List Char)) : PStat
   match s.plan with
   | some _ => (s, [.error .secondPlan])
   | none =>
+    if tooLong ds then (s, [.error .planCountTooLarge]) else
     let n := natOfDigits ds
     let p : Plan := { numTests := n, late := decide (s.numTests > 0),
                       skipped := (n == 0) || planIsSkip dir, explanation := expl }
@@ -313,6 +332,7 @@ def onPlan (s : PState) (ds : List Char) (dir expl : Option (List Char)) : PStat
 /-- the `_RE_VERSION` branch -/
 def onVersion (s : PState) (ds : List Char) : PState × List Event :=
   if s.lineno ≠ 1 then (s, [.error .versionNotFirst])
+  else if tooLong ds then (s, [.error .versionTooLarge])
   else
     let v := natOfDigits ds
     ({ s with version := v }, [if v < 13 then .error .versionTooLow else .version v])
@@ -378,6 +398,95 @@ def run (s : PState) : List (List Char) → PState × List Event
 def parse (lines : List (List Char)) : List Event :=
   let r := run PState.init lines
   r.2 ++ finish r.1
+
+/-! ### Exception-faithful layer
+
+`int()` is the only call in `parse_line` / `parse_test` that can raise on the modelled domain.  Here it is a
+partial primitive (`pyInt`), the three call sites are written with the `try … except ValueError` of the source,
+and everything else is threaded through `Except`; `MesonModel.Props.C18.parse_never_raises` proves that no
+exception escapes and that the result is the plain model above. -/
+
+inductive PyExc | valueError
+  deriving DecidableEq, Repr
+
+/-- `int(ds)` for a non-empty ASCII digit string -/
+def pyInt (ds : List Char) : Except PyExc Nat :=
+  if tooLong ds then .error .valueError else .ok (natOfDigits ds)
+
+def onTestE (s : PState) (ok : Bool) (num : Option (List Char)) (name : List Char)
+    (dir expl : Option (List Char)) : Except PyExc (PState × List Event) := do
+  let late := lateNow s
+  -- try: last_test = last_test + 1 if group(2) is None else int(group(2))
+  -- except ValueError: yield Error; last_test += 1
+  let (n, errs) ← tryCatch
+    (do let n ← (match num with
+                 | none => pure (s.lastTest + 1)
+                 | some d => pyInt d)
+        pure (n, ([] : List Event)))
+    (fun _ => pure (s.lastTest + 1, [Event.error .testNumberTooLarge]))
+  pure ({ s with foundLateTest := s.foundLateTest || late, numTests := s.numTests + 1, lastTest := n,
+                 highestTest := max s.highestTest n, state := .afterTest },
+        (if late then [.error .lateTest] else []) ++ errs ++
+        (if exceedsPlan s n then [.error .exceedsPlan] else []) ++ parseTest ok n name dir expl)
+
+def onPlanE (s : PState) (ds : List Char) (dir expl : Option (List Char)) :
+    Except PyExc (PState × List Event) :=
+  match s.plan with
+  | some _ => pure (s, [.error .secondPlan])
+  | none =>
+    tryCatch
+      (do let n ← pyInt ds
+          let p : Plan := { numTests := n, late := decide (s.numTests > 0),
+                            skipped := (n == 0) || planIsSkip dir, explanation := expl }
+          pure ({ s with plan := some p }, planErrs dir n ++ [.plan p]))
+      (fun _ => pure (s, [.error .planCountTooLarge]))
+
+def onVersionE (s : PState) (ds : List Char) : Except PyExc (PState × List Event) :=
+  if s.lineno ≠ 1 then pure (s, [.error .versionNotFirst])
+  else
+    tryCatch
+      (do let v ← pyInt ds
+          pure ({ s with version := v }, [if v < 13 then .error .versionTooLow else .version v]))
+      (fun _ => pure (s, [.error .versionTooLarge]))
+
+def mainLineE (s : PState) (line : List Char) : Except PyExc (PState × List Event) :=
+  let l := rstrip line
+  match classify l with
+  | .skip => pure (s, [])
+  | .test ok num name dir expl => onTestE s ok num name dir expl
+  | .plan ds dir expl => onPlanE s ds dir expl
+  | .bailout msg => pure ({ s with bailedOut := true }, [.bailout msg])
+  | .version ds => onVersionE s ds
+  | .unknown => pure (s, [.unknown l s.lineno])
+
+def stepE (s0 : PState) (line : List Char) : Except PyExc (PState × List Event) :=
+  let s := { s0 with lineno := s0.lineno + 1 }
+  match s.state with
+  | .main => mainLineE s line
+  | .afterTest =>
+    if s.version ≥ 13 then
+      match yamlStart line with
+      | some ind => pure ({ s with state := .yaml, yamlLineno := some s.lineno, yamlIndent := ind }, [])
+      | none => mainLineE { s with state := .main } line
+    else mainLineE { s with state := .main } line
+  | .yaml =>
+    if yamlEnd line then pure ({ s with state := .main }, [])
+    else if startsWith line s.yamlIndent then pure (s, [])
+    else do
+      let r ← mainLineE { s with state := .main } line
+      pure (r.1, .error (.yamlNotTerminated s.yamlLineno) :: r.2)
+
+def runE (s : PState) : List (List Char) → Except PyExc (PState × List Event)
+  | [] => pure (s, [])
+  | l :: ls => do
+    let r ← stepE s l
+    let r' ← runE r.1 ls
+    pure (r'.1, r.2 ++ r'.2)
+
+/-- `list(TAPParser().parse(lines))` with exceptions -/
+def parseE (lines : List (List Char)) : Except PyExc (List Event) := do
+  let r ← runE PState.init lines
+  pure (r.2 ++ finish r.1)
 
 /-! ### Verdict (`TestRunTAP.parse`, `TestRunTAP.complete`, `TestRun._complete`) -/
 
